@@ -95,6 +95,10 @@ type Options struct {
 	Redis       bool
 	ViewChange  bool
 	KeepDir     bool
+	// GenesisShape selects how the genesis client distribution is spread over the contract entries of the initial
+	// states: 0 all clients under the first entry; 1 round-robin over all entries; 2 all under the last entry;
+	// 3 round-robin over the first three entries with an empty first list when there are few clients.
+	GenesisShape int
 }
 
 // World is one chain instance plus harness key material.
@@ -282,9 +286,30 @@ func New(opt Options) *World {
 		tok := per
 		st := state.InitState{ID: SCAddresses[name], Tokens: tok}
 		if i == 0 {
-			// miner contract wallet carries the client distribution and the remainder of the supply
+			// miner contract wallet carries the remainder of the supply (and, in shape 0, the whole client distribution)
 			st.Tokens = currency.Coin(config.MaxTokenSupply) - per*currency.Coin(len(scOrder)-1)
-			st.State = ids
+		}
+		switch opt.GenesisShape {
+		case 0:
+			if i == 0 {
+				st.State = ids
+			}
+		case 1:
+			for k, it := range ids {
+				if k%len(scOrder) == i {
+					st.State = append(st.State, it)
+				}
+			}
+		case 2:
+			if i == len(scOrder)-1 {
+				st.State = ids
+			}
+		default:
+			for k, it := range ids {
+				if 1+k%3 == i {
+					st.State = append(st.State, it)
+				}
+			}
 		}
 		used += st.Tokens
 		is.States = append(is.States, st)
